@@ -345,7 +345,7 @@ theorem processHistory_def (ias : Rat → Int → Rat) (tr : Tracker)
 /-- hypotheses met by the frames of the examples below; and the DF precondition is sharp: a DF20
     frame in the ADS-B list makes the model (like Python) raise -/
 example : exAdsb.length = 28 ∧ df exAdsb = 17 ∧ exAdsb2.length = 28 ∧ df exAdsb2 = 17 ∧ exCommb.length = 28 ∧
-    TrackerWF {} ∧ adsbStep {} 0 exCommb = .exc :=
+    TrackerWF {} ∧ (adsbStep {} 0 exCommb).isExc = true :=
   ⟨by decide, by decide +kernel, by decide, by decide +kernel, by decide, trackerWF_empty, by decide +kernel⟩
 
 /-! ### Concrete histories (the hypotheses above are satisfiable, and the conclusions are what
